@@ -4,6 +4,8 @@
 -/
 import XgiModel.C09.Measures
 
+set_option linter.unusedSectionVars false
+
 namespace Xgi.C09
 open Function
 
@@ -145,4 +147,118 @@ theorem perm_of_nodup_mem [DecidableEq α] {l l' : List α} (h1 : l.Nodup) (h2 :
   (List.perm_ext_iff_of_nodup h1 h2).2 h
 
 end perm
+
+/-! ### the two relations on views -/
+
+/-- `v'` is `v` relabelled by `π` (nodes) and `σ` (edge IDs), in the same order -/
+structure VRen (π σ : PyId → PyId) (v v' : View) : Prop where
+  nodes : v'.nodes = v.nodes.map π
+  eids : v'.eids = v.eids.map σ
+  mem : ∀ e, v'.mem (σ e) = (v.mem e).map π
+  memb : ∀ n, v'.memb (π n) = (v.memb n).map σ
+
+/-- `v'` lists the same nodes, edges, members and memberships as `v`, each in some other order -/
+structure VPerm (v v' : View) : Prop where
+  nodes : v'.nodes.Perm v.nodes
+  eids : v'.eids.Perm v.eids
+  mem : ∀ e, (v'.mem e).Perm (v.mem e)
+  memb : ∀ n, (v'.memb n).Perm (v.memb n)
+
+/-- the two incidence tables agree -/
+structure VWF (v : View) : Prop where
+  inc : ∀ n e, e ∈ v.memb n ↔ (e ∈ v.eids ∧ n ∈ v.mem e)
+
+/-! ### lifting from `Net` -/
+
+theorem members_rename_list {π σ : PyId → PyId} (hσ : Injective σ) (es : List (PyId × List PyId)) (e : PyId) :
+    (((es.map (fun p => (σ p.1, p.2.map π))).find? (fun p => decide (p.1 = σ e))).map (·.2)).getD []
+      = ((((es.find? (fun p => decide (p.1 = e))).map (·.2)).getD []).map π) := by
+  induction es with
+  | nil => rfl
+  | cons p t ih =>
+    simp only [List.map_cons, List.find?_cons, inj_eq hσ]
+    by_cases h : p.1 = e
+    · simp [h]
+    · simp only [h, decide_false]; exact ih
+
+theorem view_rename {π σ : PyId → PyId} (hπ : Injective π) (hσ : Injective σ) (h : Net) :
+    VRen π σ (view h) (view (rename π σ h)) where
+  nodes := rfl
+  eids := by simp [view, rename, Net.edgeIds, List.map_map, Function.comp_def]
+  mem := fun e => by
+    simp only [view, rename, Net.members]
+    exact members_rename_list hσ h.edges e
+  memb := fun n => by
+    simp only [view, rename, Net.memberships]
+    rw [filter_map_of (q := fun p => decide (n ∈ p.2)) h.edges (fun p => by simp [mem_map_inj hπ])]
+    simp [List.map_map, Function.comp_def]
+
+theorem find?_perm_of_nodup {β : Type} {l l' : List (PyId × β)} (h : l.Perm l') (hn : (l.map (·.1)).Nodup) (e : PyId) :
+    l.find? (fun p => decide (p.1 = e)) = l'.find? (fun p => decide (p.1 = e)) := by
+  induction h with
+  | nil => rfl
+  | cons x _ ih =>
+    simp only [List.map_cons, List.nodup_cons] at hn
+    simp only [List.find?_cons]
+    split
+    · rfl
+    · exact ih hn.2
+  | swap x y l =>
+    simp only [List.map_cons, List.nodup_cons, List.mem_cons, not_or] at hn
+    simp only [List.find?_cons]
+    by_cases hx : x.1 = e <;> by_cases hy : y.1 = e <;> simp [hx, hy]
+    exact absurd (hx.trans hy.symm).symm hn.1.1
+  | trans h1 _ ih1 ih2 =>
+    exact (ih1 hn).trans (ih2 ((h1.map _).nodup_iff.1 hn))
+
+theorem view_reorder {h h' : Net} (hn : (h.edges.map (·.1)).Nodup) (hr : Reorder h h') : VPerm (view h) (view h') := by
+  obtain ⟨f, hf, hp⟩ := hr.edges
+  have hes : ((h.edges.map (fun p => (p.1, f p.1))).map (·.1)) = h.edges.map (·.1) := by
+    simp [List.map_map, Function.comp_def]
+  refine ⟨hr.nodes, ?_, ?_, ?_⟩
+  · show (h'.edges.map (·.1)).Perm (h.edges.map (·.1))
+    rw [← hes]; exact hp.map _
+  · intro e
+    show (((h'.edges.find? (fun p => decide (p.1 = e))).map (·.2)).getD []).Perm
+          (((h.edges.find? (fun p => decide (p.1 = e))).map (·.2)).getD [])
+    rw [← find?_perm_of_nodup hp.symm (by rw [hes]; exact hn) e, List.find?_map]
+    cases hfe : h.edges.find? ((fun p : PyId × List PyId => decide (p.1 = e)) ∘ fun p => (p.1, f p.1)) with
+    | none =>
+      have : h.edges.find? (fun p => decide (p.1 = e)) = none := hfe
+      simp [this]
+    | some p =>
+      have h2 : h.edges.find? (fun p => decide (p.1 = e)) = some p := hfe
+      simp only [h2, Option.map_some, Option.getD_some]
+      exact hf p (List.mem_of_find?_eq_some h2)
+  · intro n
+    show ((h'.edges.filter (fun p => decide (n ∈ p.2))).map (·.1)).Perm ((h.edges.filter (fun p => decide (n ∈ p.2))).map (·.1))
+    refine ((hp.filter _).map _).trans ?_
+    rw [List.filter_map, List.map_map]
+    have : (h.edges.filter ((fun p : PyId × List PyId => decide (n ∈ p.2)) ∘ fun p => (p.1, f p.1)))
+            = h.edges.filter (fun p => decide (n ∈ p.2)) := by
+      apply List.filter_congr
+      intro p hp'
+      simp [(hf p hp').mem_iff]
+    rw [this]
+    exact List.Perm.of_eq (by simp [Function.comp_def])
+
+theorem inc_list (es : List (PyId × List PyId)) (hn : (es.map (·.1)).Nodup) (n e : PyId) :
+    e ∈ (es.filter (fun p => decide (n ∈ p.2))).map (·.1)
+      ↔ (e ∈ es.map (·.1) ∧ n ∈ ((es.find? (fun p => decide (p.1 = e))).map (·.2)).getD []) := by
+  induction es with
+  | nil => simp
+  | cons p t ih =>
+    simp only [List.map_cons, List.nodup_cons] at hn
+    have ih := ih hn.2
+    by_cases hpe : p.1 = e
+    · subst hpe
+      have h1 : p.1 ∉ (t.filter (fun p => decide (n ∈ p.2))).map (·.1) := by
+        intro hc; rw [ih] at hc; exact hn.1 hc.1
+      by_cases hnp : n ∈ p.2 <;> simp [hnp, h1]
+    · have h2 : ¬ (e = p.1) := fun hc => hpe hc.symm
+      by_cases hnp : n ∈ p.2 <;> simp [hnp, hpe, h2, ih]
+
+theorem view_wf {h : Net} (hn : (h.edges.map (·.1)).Nodup) : VWF (view h) :=
+  ⟨fun n e => inc_list h.edges hn n e⟩
+
 end Xgi.C09
